@@ -135,7 +135,7 @@ reg("C26", "model_checking",
     "Idle release/resume loses nothing and never double-runs (both stacks). In-process: TLC checks IdleRelease.tla: release only "
     "when the engine has no queued/running/scheduled work, no event lost, active <=> one live loop. The real stack is "
     "driven through idle gaps around the timeout, two release/reload cycles, two concurrent senders to a released run and "
-    "a send racing the deferred release in both callback orders, a garbage-collector pass while a reloaded run waits; Obs_C26 judges processed events, live loops and what the "
+    "a send racing the deferred release in both callback orders, a garbage-collector pass while a reloaded run waits (RunRefs.tla: who keeps a run alive); Obs_C26 judges processed events, live loops and what the "
     "engine held at release. DBOS: TLC checks Lifecycle.tla (begin/complete release, crash timeout takeover, try_begin_resume, "
     "one owner per release, liveness) and DbosIdleRelease.tla (timer, mailbox, check-then-send window); histories taken from "
     "the paths of TLC's Lifecycle graph run on the real SqliteRunLifecycleLock under a virtual clock, the real "
